@@ -99,6 +99,15 @@ def run(ck):
     for f in resf["findings"][:3]:
         kind = "listed-segment-does-not-resolve" if "does not resolve" in f["what"] else "playlist-served-beside-other-requests-is-not-the-current-one"
         ck.violation("C10:%s:%s" % (kind, f["mode"]), "%s storage, after frame %d, token %r: %s" % (f["mode"], f["after_frame"], f["token"], f["what"]), f)
+    # ---- a rollover attempted inside a segment fetch (gate hls.seg.found): Open is one critical section in Hls.tla ----
+    oo = os.path.join(ck.tmp, "c10_openrace.json")
+    ck.run_driver("./c10", "^TestHlsOpenRace$", {"VERIF_OUT": oo}, timeout=600)
+    reso = ck.read_result(oo)
+    if reso["forced"] < 20:
+        raise Infra("vacuous open-race leg: the gate hls.seg.found fired %d times" % reso["forced"])
+    ck.cov["open_race_leg"] = {k: reso[k] for k in ("forced", "rollover_blocked_by_reader", "rollover_completed_inside_fetch")}
+    for f in reso["findings"][:3]:
+        ck.violation("C10:segment-fetch-racing-rollover:%s" % f["mode"], "%s storage, round %d, segment %d: %s" % (f["mode"], f["round"], f["seq"], f["what"]), f)
     # ---- a path taken over while the replaced stream is still open (C05), both publishing ---------------------
     orp = os.path.join(ck.tmp, "c10_replaced.json")
     ck.run_driver("./c10", "^TestHlsReplaced$", {"VERIF_OUT": orp}, timeout=600)
